@@ -744,7 +744,7 @@ def sensor_to_categorical(sensor_timestamps, sensor_values, dump_midtimes,
         sensor_values = np.array([transform(y) for y in sensor_values])
     # Force first dump to have valid sensor value
     # (insert initial value or let the first proper value apply from the start)
-    if events[0] != 0 and initial_value is not None:
+    if (len(events) == 0 or events[0] != 0) and initial_value is not None:
         if wrapped_values:
             initial_value = ComparableArrayWrapper(initial_value)
         sensor_values = np.r_[[initial_value], sensor_values]
